@@ -64,6 +64,14 @@ def table_diff(a, b, float_tol=0.0):
     return None
 
 
+def prop_integral(p, lo, hi):
+    """integral of a property between two temperatures, or the kind of refusal"""
+    try:
+        return ("val", np.asarray(p.get_at_integral_value(hi, lo), float).tolist())
+    except Exception as e:
+        return ("exc", type(e).__name__)
+
+
 def fluid_diff(fa, fb, rng):
     if fa.name != fb.name or fa.fluid_type != fb.fluid_type:
         return "name/type"
@@ -81,6 +89,9 @@ def fluid_diff(fa, fb, rng):
             return "property %s (%s) not usable after loading: %r" % (k, type(pa).__name__, e)
         if not np.array_equal(va, vb):
             return "values of %s" % k
+        lo, hi = rng.uniform(275, 300, 3), rng.uniform(305, 345, 3)
+        if prop_integral(pa, lo, hi) != prop_integral(pb, lo, hi):
+            return "integral of %s (%s)" % (k, type(pa).__name__)
     return None
 
 
@@ -244,6 +255,10 @@ def tie(ctx):
             same = False
         if not same:
             bad.append({"class": type(p).__name__, "what": "from_dict(to_dict()) evaluates differently"})
+        lo, hi = rng.uniform(275, 300, 3), rng.uniform(305, 345, 3)
+        if prop_integral(p, lo, hi) != prop_integral(q, lo, hi):
+            bad.append({"class": type(p).__name__, "what": "from_dict(to_dict()) integrates differently",
+                        "original": prop_integral(p, lo, hi), "loaded": prop_integral(q, lo, hi)})
     for c in classes:
         if c not in [type(p).__name__ for p in insts]:
             bad.append({"class": c, "what": "property class without a codec model entry (new class?)"})
